@@ -218,10 +218,11 @@ def resolveQubitV (ctx : Resolve.Ctx) : Val → M (Val × Int)
   | .qubit _ src idx => do
     let i ← Resolve.resolveAV ctx (Resolve.avFuel ctx) idx
     let r ← Resolve.resolveAV ctx (Resolve.avFuel ctx) src
+    if !Resolve.isRegister r then throw (.jaqal "not-a-register")
     match i with
     | .int k => resolveRegV ctx r k
-    | .flt _ => .error (.other "float-index")
-    | _ => .error (.other "TypeError")
+    | .flt d => if d.isIntegral then resolveRegV ctx r d.toInt else .error (.jaqal "index-not-integer")
+    | _ => .error (.jaqal "index-not-integer")
   | _ => .error (.other "AttributeError")
 
 /-- `MapFiller.visit` on a value -/
